@@ -112,6 +112,10 @@ pub fn units() -> Vec<Vec<String>> {
     // clock, a budget) must not reach a later depth-limited search. Histories that contain one run
     // under the node clock (1 node = 1 ms), which makes the timed searches deterministic too.
     u.push(vec!["position startpos".to_string(), "go movetime 20".to_string(), "isready".to_string()]);
+    // the standard `searchmoves` token (an engine that does not know it searches every move, one
+    // that does restricts the root to the listed moves: either way the answer is a function of
+    // the commands); eight moves, so that an order taken from anything per-process shows
+    u.push(vec!["position startpos".to_string(), "go depth 3 searchmoves e2e4 d2d4 g1f3 b1c3 c2c4 e2e3 g2g3 b2b3".to_string(), "isready".to_string()]);
     // a clock on which no time is left (budget 0 ms): the search stops before its first iteration
     // whatever the real clock says, so this unit is deterministic WITHOUT the node clock and the
     // histories that contain no other timed unit run on the engine's real timing path (what the
@@ -426,6 +430,19 @@ pub fn replay(history: &str, k: usize, exe: &str, seed: u64) -> i32 {
                     }
                 }
             },
+        }
+    }
+    // randomness that is not the key set (a hash map's per-process state) need not show between
+    // two particular runs: a second round over the same key sets (on a correct engine every run
+    // of a history prints the same, so more runs can only find what is there)
+    if !bad {
+        for z in sd.iter().filter(|z| z.is_some()) {
+            if let (Ok(s), Some(f)) = (run_once(exe, &h, &us, *z), &first) {
+                if *f != s && !bad {
+                    println!("REPLAY-VIOLATION C13 [{}] output depends on the key set", text(&h, &us));
+                    bad = true;
+                }
+            }
         }
     }
     let f = first.unwrap();
